@@ -337,6 +337,29 @@ func receiveTime() {
 			dg.DoneFunc()
 		}
 	}
+	// a datagram that was handed over but is not yet parsed keeps its bytes while later datagrams are read:
+	// releasing an earlier, parsed datagram must recycle that datagram's buffer and no other
+	res.Evaluations++
+	next := func(d string) []*statsd.Datagram {
+		<-conn.entered
+		conn.data <- []byte(d)
+		return <-out
+	}
+	for _, dg := range next("k0:1|c") {
+		dg.DoneFunc() // parsed and released
+	}
+	held := next("k1:11111|c|#still:unparsed")
+	want := append([]byte{}, held[0].Msg...)
+	later := next("k2:2|g")
+	later2 := next("k3:33|ms|#x")
+	if !bytes.Equal(held[0].Msg, want) {
+		res.Violate("receiver-buffer-reused", fmt.Sprintf("a datagram handed over by the receiver (%q) and not yet parsed now reads %q: its buffer was recycled when an earlier datagram was released, and a later datagram was read into it", want, held[0].Msg), map[string]any{"receiveTime": true})
+	}
+	for _, b := range [][]*statsd.Datagram{held, later, later2} {
+		for _, dg := range b {
+			dg.DoneFunc()
+		}
+	}
 }
 
 func main() {
